@@ -56,6 +56,18 @@ def padded_forms(have):
     return out
 
 
+def long_forms(have):
+    """(string, accepted?) for well-formed spellings of `have` grown to lengths around the 63 characters a
+    version string may have: with a suffix, and with a zero-padded patch number."""
+    out = []
+    for L in (62, 63, 64, 65, 100, 1000, 5000):
+        pre = "%d.%d.%d-" % have
+        out.append((pre + "x" * (L - len(pre)), L < 64))
+        pre2 = "%d.%d." % have[:2]
+        out.append((pre2 + str(have[2]).rjust(L - len(pre2), "0"), L < 64))
+    return out
+
+
 def digit_relatives(have):
     """Versions whose components, written in decimal, extend or shorten those of
     `have` (1.1.0 -> 1.10.0, 1.19.0, 10.1.0 ...): equal as strings up to some
@@ -147,6 +159,7 @@ def part_b(chk, asan, quick):
     cases.append(("%d.%d.0" % (lib[0], lib[1] + 100), False))
     for s in MALFORMED:
         cases.append((s, False))
+    cases += long_forms(lib)
     cases.append(("%d.%d.%d-rc1" % lib, True))
 
     def one(c):
@@ -307,6 +320,9 @@ def part_c(chk, plain, quick):
         for sfx in ("%d.%d" % have[:2], "%d.%dx" % have[:2], "%d.%d." % have[:2], "%d.%d.%dx.1" % have):
             cases.append({"kind": "malformed", "requires": [{name: sfx}], "events": [],
                           "expect_ok": False, "model": name, "want": sfx, "have": have})
+        for sfm, ok in long_forms(have):
+            cases.append({"kind": "version" if ok else "malformed", "requires": [{name: sfm}], "events": [] if (name == "ovni" or not ok) else [mc],
+                          "expect_ok": ok, "model": name, "want": sfm[:80], "have": have})
         for s in MALFORMED[:12]:
             cases.append({"kind": "malformed", "requires": [{name: s}], "events": [],
                           "expect_ok": False, "model": name, "want": s, "have": have})
